@@ -39,6 +39,7 @@ func checkC10(p *Prog, r *Report) {
 	// iterates its maps in another order than the one it replaces)
 	checkWiringMapRanges(p, r, kp)
 	checkReplayedBlockSeesSameInputs(p, r, kp, scope)
+	checkNoProcessMemoryRegistrationInBlocks(p, r, kp, scope)
 	// D1b … nor in process-wide registries or long-lived objects of other modules (lost on restart, never rolled back)
 	checkProcessWideState(p, r, kp, scope)
 	channels, writes := hiddenStateChannels(p, scope, scope)
@@ -382,4 +383,68 @@ func checkStartupCreatesNoContext(p *Prog, r *Report, kp func(string, string) st
 		}
 	}
 	r.Floor("control:context-creation-sites", nCtx, 1)
+}
+
+
+// checkNoProcessMemoryRegistrationInBlocks (F18; C10 and C19): block-processing code — an upgrade handler in particular — registers
+// nothing in the memory of a long-lived SDK object. A params subspace created, or given its key table, while a block is executed
+// exists only in the process that executed that block: a node restarted afterwards lacks it and handles a legacy parameter-change
+// proposal differently from a node that kept running. Such registrations belong to the code that builds the application.
+func checkNoProcessMemoryRegistrationInBlocks(p *Prog, r *Report, kp func(string, string) string, scope []*ssa.Function) {
+	rule := "block-processing code registers nothing in the process memory of the params keeper (subspaces and key tables are set where the application is built, in every process)"
+	registrars := []string{"x/params/types.Subspace).WithKeyTable", "x/params/keeper.Keeper).Subspace"}
+	n, nBad := 0, 0
+	// the constructors of the upgrade handlers (`CreateUpgradeHandler(mm, cfg, keepers) UpgradeHandler`) run where the application is
+	// built, in every process: only what the handler closures they return (and what those call) do is block processing
+	var entries []*ssa.Function
+	for _, e := range consensusEntries(p) {
+		res := e.Signature.Results()
+		if res.Len() == 1 && strings.HasSuffix(res.At(0).Type().String(), "x/upgrade/types.UpgradeHandler") {
+			continue
+		}
+		entries = append(entries, e)
+	}
+	scope, _ = moduleScope(p, entries)
+	for _, fn := range scope {
+		if fn.Blocks == nil {
+			continue
+		}
+		if res := fn.Signature.Results(); res.Len() == 1 && strings.HasSuffix(res.At(0).Type().String(), "x/upgrade/types.UpgradeHandler") {
+			continue
+		}
+		for _, cs := range callSites(fn) {
+			hit := ""
+			for _, s := range registrars {
+				if strings.HasSuffix(cs.Name, s) {
+					hit = s
+				}
+			}
+			if hit == "" {
+				continue
+			}
+			n++
+			nBad++
+			r.Fail(kp("STATE", "process-memory-registration:"+FuncName(fn)+"→"+hit[strings.LastIndex(hit, ".")+1:]), rule, p.Pos(cs.Instr.Pos()),
+				fmt.Sprintf("%s calls %s while a block is processed: the registration lives in this process only — after a restart it is gone, and a legacy parameter-change proposal that the running node executes is refused by the restarted one (\"parameter … not registered\"): the two compute different application hashes", FuncName(fn), cs.Name))
+		}
+	}
+	if nBad == 0 {
+		r.OK(kp("STATE", "process-memory-registration#none"), rule, "x/*, app/", fmt.Sprintf("%d functions in block-processing scope, no Subspace / WithKeyTable call", len(scope)))
+	}
+	// control: the registrations exist, outside the block-processing scope (where the application is built)
+	ctl := 0
+	for _, fn := range p.ModFuncs {
+		if fn.Blocks == nil || !InPkgs(fn, "app") {
+			continue
+		}
+		for _, cs := range callSites(fn) {
+			for _, s := range registrars {
+				if strings.HasSuffix(cs.Name, s) {
+					ctl++
+				}
+			}
+		}
+	}
+	r.Floor("control:params-registrations-at-wiring-time", ctl, 5)
+	_ = n
 }
